@@ -9,7 +9,10 @@ checked for all 512 group / includeSnapshotsFrom topologies of two kubernetes bi
 (spec/Snapshot/SnapKeys.tla) through the real loader and HookController.UpdateSnapshots; for grouped topologies one
 execution with three contexts is rendered while the cluster is changed between two reads of the same binding (should
 the per-execution cache ever read twice): every occurrence of a binding's snapshot must be the same list.
-Not covered here: namespace.labelSelector bindings (the fake cluster does not honour label selectors on watches).
+Bindings with a static namespace list and namespace.labelSelector (namespaces start and stop matching, are deleted with
+their objects and come back, around AddMonitor / StartMonitor / Restart): spec/Snapshot/SnapshotNs.tla, replayed on the
+real monitor; a namespace reaches the started monitor through the namespace informer's own callbacks (the fake cluster
+does not honour label selectors on watches).
 """
 import ast
 import glob
@@ -44,6 +47,53 @@ def gen(ctx, num, depth):
     if not behs:
         raise Infra("no behaviours")
     return behs
+
+
+def gen_ns(ctx, num, depth):
+    d = os.path.dirname(ctx.path("snapnsbeh", "x"))
+    vlib.tlc(ctx, SPEC, "SnapshotNs", "SimNs.cfg", mode="sim", sim_num=num, sim_depth=depth, timeout=600, want_prints=False,
+             simfile=os.path.join(d, "b"))
+    behs = []
+    for f in sorted(glob.glob(os.path.join(d, "b_*"))):
+        sts = tlaparse.parse_behaviour_file(f)
+        os.unlink(f)
+        if len(sts) > 3 and any(s["act"][0] == "StartMonitor" for s in sts):
+            behs.append([{"act": s["act"], "phase": s["phase"], "pendingNs": s["pendingNs"], "pendingObj": s["pendingObj"], "nsMatch": s["nsMatch"],
+                          "known": sorted(s["known"]), "cluster": norm(s["cluster"]), "cache": norm(s["cache"])} for s in sts])
+    if not behs:
+        raise Infra("no behaviours")
+    return behs
+
+
+def namespaces(ctx, binary):
+    """Bindings with a static namespace list and namespace.labelSelector: spec/Snapshot/SnapshotNs.tla."""
+    q = ctx.quick()
+    big = None if q else {"DynNs": '{"n1", "n2", "n3"}', "Vals": '{"v1"}'}
+    r = vlib.tlc(ctx, SPEC, "SnapshotNs", "MCNs.cfg", timeout=3000, expect_violation=False, workers=12, consts=big)
+    ctx.log("TLC SnapshotNs/MCNs (label-selected namespaces, reference): %d generated / %d distinct states, %.0fs" % (r["generated"], r["distinct"], r["wall_s"]))
+    vlib.tlc(ctx, SPEC, "SnapshotNs", "MCNs_asis.cfg", timeout=300, expect_violation="KnownFollowsLabel", workers=4)
+    r2 = vlib.tlc(ctx, SPEC, "SnapshotNs", "MCNs_asis_only.cfg", timeout=3000, expect_violation=False, workers=12, consts=big)
+    ctx.log("TLC: the code as it is deviates only by namespaces that stop matching between AddMonitor and StartMonitor (%d distinct states)" % r2["distinct"])
+    behs = gen_ns(ctx, ctx.pick(200, 2400), 45)
+    cases = [{"steps": b} for b in behs]
+    rows = vlib.run_sharded(ctx, binary, cases, lambda i, o: ["-mode", "ns", "-in", i, "-out", o], shards=8, timeout=1800, tag="snapns")
+    quiet = 0
+    acts = {}
+    for c, o in zip(cases, rows):
+        quiet += o.get("quiet_points", 0)
+        for s in c["steps"][1:]:
+            acts[s["act"][0]] = acts.get(s["act"][0], 0) + 1
+        if not o["ok"]:
+            if o["sig"].startswith("C02/"):
+                ctx.fail(o["sig"], o["detail"], vlib.replay_payload("snap", ["-mode", "ns", "-in", "{in}", "-out", "{out}"], c,
+                         human={"actions": [s["act"] for s in c["steps"][1:o.get("bad_step", 0) + 1]], "initial": c["steps"][0]["cluster"], "labelled": c["steps"][0]["nsMatch"]}))
+            else:
+                ctx.notes.append("DIVERGENCE %s: %s" % (o["sig"], o["detail"][:300]))
+    ctx.log("replayed %d histories with label-selected namespaces on the real monitor: %d quiet points compared; actions %s" % (len(cases), quiet, acts))
+    ctx.cov["namespace_histories"] = len(cases)
+    ctx.cov["namespace_quiet_points"] = quiet
+    ctx.cov["namespace_actions"] = acts
+    return len(cases)
 
 
 def check_c02(ctx):
@@ -92,9 +142,10 @@ def check_c02(ctx):
             else:
                 ctx.notes.append("DIVERGENCE %s: %s" % (o["sig"], o["detail"][:300]))
     ctx.log("snapshot keys: %d topologies (exhaustive) through the real loader + HookController.UpdateSnapshots" % len(topos))
+    nns = namespaces(ctx, binary)
     ctx.cov["topologies"] = len(topos)
-    ctx.cov["traces_validated_against_impl"] = len(cases) + len(topos)
-    ctx.cov["evaluations"] = len(cases) + len(topos)
+    ctx.cov["traces_validated_against_impl"] = len(cases) + len(topos) + nns
+    ctx.cov["evaluations"] = len(cases) + len(topos) + nns
     ctx.cov["quiet_points"] = quiet
     ctx.cov["distinct_nontrivial"] = len({json.dumps([s["act"] for s in c["steps"]]) + json.dumps(c["steps"][0]["cluster"], sort_keys=True) for c in cases})
     ctx.sample({"initial": cases[0]["steps"][0]["cluster"], "actions": [s["act"] for s in cases[0]["steps"][1:]]})
